@@ -16,7 +16,7 @@ no other width function (width_cjk, string widths) is used on the conversion pat
 text run are written only by the constructor (runs are joined only by CellText::merge under can_merge)."""
 import re
 
-from ..common import guards, lib_reachable, short, where
+from ..common import blank_guard_atoms, guards, lib_reachable, short, where
 from ..exprs import concat_parts, expand_combinators, simplify, closure_of, format_parts, is_const, mentions, strip
 from ..mirlib import Expr, Program, expr_str, op_place
 
@@ -333,18 +333,7 @@ def run(run):
                 run.ok("C04.F2", "a cell is inserted at (enumerate index of the character, enumerate index of the row) with that character", where(t))
             else:
                 run.bad("C04.F2", "cell-index", where(t), "the inserted cell/char is `%s` / `%s`: not the plain enumerate indices of the character's column and row" % (expr_str(cell)[:100], expr_str(ch)[:60]))
-            gs = guards(prog, cf, bid)
-            conds = []
-            for c, tk, sw in gs:
-                c = strip(c)
-                if c[0] == "call" and c[1].endswith("is_whitespace") and tk == 0:
-                    conds.append("ws")
-                elif c[0] == "bin" and c[1] == "Ne" and is_const(c[3], 0) and tk != 0:
-                    conds.append("nul")
-                elif c[0] == "discr":
-                    continue
-                else:
-                    conds.append("other:" + expr_str(c)[:50])
+            conds = blank_guard_atoms(prog, cf, bid)
             if sorted(conds) == ["nul", "ws"]:
                 run.ok("C04.F2", "the only conditions on the insert are ch != NUL and !ch.is_whitespace()", where(t))
             else:
